@@ -680,6 +680,13 @@ func (r *runner) resolveCompletedTasks(ctx context.Context, completedTasks []*ta
 				if _, ok := writeChannelValues[next]; !ok {
 					writeChannelValues[next] = make(map[string]any)
 				}
+				if _, ok := writeChannelValues[next][t.nodeKey]; ok {
+					// several branches chose the same successor: it gets the value once, the surplus copy is released
+					if sr, ok := vs[i].(streamReader); ok {
+						sr.close()
+					}
+					continue
+				}
 				writeChannelValues[next][t.nodeKey] = vs[i]
 			}
 		}
